@@ -1,25 +1,84 @@
 import Netconan.Model.IpText
 import Netconan.Pinned.Patterns
+import Netconan.Generated.Patterns
+import Netconan.Proofs.RegexAlpha
 /-!
-# C06 – Address substitution in text (tier T0: kernel-evaluated instances of the model)
+# C06 – Address substitution in text  (tier T0 + alphabet analysis)
 
-The unbounded statements about the text layer are the frame theorem of the regex engine
-(`Proofs/RegexFrame.lean`, in progress) and the token characterisation of the two patterns
-(T1/T2 in DESIGN.md).  What is stated here are kernel-evaluated facts about the *pinned*
-patterns run by the model engine – regression witnesses, labelled as tests, not as the
-unbounded claim – plus the closed-form facts about parsing and printing.
+Proved for every line: `anonymize_ip_addr` changes nothing but spans that the address pattern matched
+(frame theorem of the engine), every such span is replaced by `anonMatch` of it – either the span
+itself (mask, preserved address, unparsable) or the canonical text of the image – and, by the
+verified alphabet analysis evaluated by the kernel on the pinned *and* on the regenerated pattern
+trees, an IPv4 span consists of decimal digits and dots only and no span of either family contains
+white space.  Not yet proved (validated exhaustively on short strings and on structured tokens
+against an independent scanner, see DESIGN.md): that the spans are exactly the valid standalone
+address tokens.
 -/
 namespace Netconan.Props.C06
 open Netconan Netconan.IpText Netconan.Regex
 
-/-- printing then parsing an IPv4 address is the identity on every 32-bit value's four octets -/
-theorem parse_show_v4_octets (a b c d : Nat) (ha : a < 256) (hb : b < 256) (hc : c < 256) (hd : d < 256) :
-    (((a * 256 + b) * 256 + c) * 256 + d) / 16777216 % 256 = a ∧
-    (((a * 256 + b) * 256 + c) * 256 + d) / 65536 % 256 = b ∧
-    (((a * 256 + b) * 256 + c) * 256 + d) / 256 % 256 = c ∧
-    (((a * 256 + b) * 256 + c) * 256 + d) % 256 = d := by omega
+/-- **Only matched spans change, each into the replacement of that span.** -/
+theorem only_matched_spans_change (c : IpCfg) (undo : Bool) (line out : List Char)
+    (h : anonIpLine c undo line = .ok out) :
+    ∃ segs : List Seg, line = (segs.map Seg.src).flatten ∧ out = (segs.map Seg.dst).flatten ∧
+      ∀ sg ∈ segs, ∀ t rp, sg = .rep t rp →
+        rp = anonMatch c undo t ∧ (∀ ch ∈ t, inRanges c.pattern.alpha ch = true) := by
+  obtain ⟨segs, h1, h2, h3⟩ := sub_frame c.pattern _ line out h
+  refine ⟨segs, h1, h2, ?_⟩
+  intro sg hsg t rp hst
+  obtain ⟨z0, z1, cs, hm, ht, hrp⟩ := h3 sg hsg t rp hst
+  refine ⟨hrp, ?_⟩
+  rw [ht]
+  exact match_text_in_alpha c.pattern _ z0 z1 cs hm
 
-/-- leading zeros are dropped, not read as octal -/
+/-- what a span is replaced by: itself, or the canonical text of an address -/
+theorem replacement_is_span_or_canonical (c : IpCfg) (undo : Bool) (t : List Char) :
+    anonMatch c undo t = t ∨ ∃ v, anonMatch c undo t = (if c.fam6 then showV6 v else showV4 v) := by
+  unfold anonMatch
+  split
+  · left; rfl
+  · split
+    · left; rfl
+    · right; exact ⟨_, rfl⟩
+
+def digitsAndDot (rs : List (Nat × Nat)) : Bool := rs.all (fun r => (r.1 == 46 && r.2 == 46) || (48 ≤ r.1 && r.2 ≤ 57))
+def disjointFrom (a b : List (Nat × Nat)) : Bool := a.all (fun r => b.all (fun s => r.2 < s.1 || s.2 < r.1))
+
+/-- the IPv4 pattern consumes decimal digits and dots only; neither address pattern consumes white
+space (kernel-evaluated verified analysis; on the pinned trees and on the trees regenerated from
+/repo in this run) -/
+theorem ipv4_alphabet_pinned : digitsAndDot Pinned.Patterns.ipv4.alpha = true := by decide +kernel
+theorem ipv4_alphabet_regenerated : digitsAndDot Generated.Patterns.ipv4.alpha = true := by decide +kernel
+theorem no_space_in_spans_pinned :
+    disjointFrom Pinned.Patterns.ipv4.alpha Pinned.Patterns.spaceSet = true ∧
+    disjointFrom Pinned.Patterns.ipv6.alpha Pinned.Patterns.spaceSet = true := by decide +kernel
+theorem no_space_in_spans_regenerated :
+    disjointFrom Generated.Patterns.ipv4.alpha Generated.Patterns.spaceSet = true ∧
+    disjointFrom Generated.Patterns.ipv6.alpha Generated.Patterns.spaceSet = true := by decide +kernel
+
+/-- meaning of the evaluated predicate: every consumed character is `.` (code point 46) or a decimal digit (48–57) -/
+theorem digitsAndDot_spec (rs : List (Nat × Nat)) (h : digitsAndDot rs = true) (c : Char) (hc : inRanges rs c = true) :
+    c.toNat = 46 ∨ (48 ≤ c.toNat ∧ c.toNat ≤ 57) := by
+  simp only [inRanges, List.any_eq_true, Bool.and_eq_true, decide_eq_true_eq] at hc
+  obtain ⟨r, hr, h1, h2⟩ := hc
+  simp only [digitsAndDot, List.all_eq_true, Bool.or_eq_true, Bool.and_eq_true, beq_iff_eq, decide_eq_true_eq] at h
+  rcases h r hr with ⟨a, b⟩ | ⟨a, b⟩
+  · left; omega
+  · right; omega
+
+/-- hence: a span replaced by the IPv4 stage consists of digits and dots (regenerated pattern) -/
+theorem ipv4_spans_are_digits_and_dots (c : IpCfg) (hp : c.pattern = Generated.Patterns.ipv4) (undo : Bool)
+    (line out : List Char) (h : anonIpLine c undo line = .ok out) :
+    ∃ segs : List Seg, line = (segs.map Seg.src).flatten ∧ out = (segs.map Seg.dst).flatten ∧
+      ∀ sg ∈ segs, ∀ t rp, sg = .rep t rp → ∀ ch ∈ t, ch.toNat = 46 ∨ (48 ≤ ch.toNat ∧ ch.toNat ≤ 57) := by
+  obtain ⟨segs, h1, h2, h3⟩ := only_matched_spans_change c undo line out h
+  refine ⟨segs, h1, h2, ?_⟩
+  intro sg hsg t rp hst ch hch
+  have := (h3 sg hsg t rp hst).2 ch hch
+  rw [hp] at this
+  exact digitsAndDot_spec _ ipv4_alphabet_regenerated ch this
+
+/-- leading zeros are dropped, not read as octal; printing is canonical (kernel-evaluated tests) -/
 example : parseV4 "1.2.3.040".toList = .ok 0x01020328 := by decide +kernel
 example : parseV4 "1.2.3.256".toList = .error .addressValue := by decide +kernel
 example : showV6 1 = "::1".toList := by decide +kernel
